@@ -2,7 +2,10 @@ package scen
 
 import (
 	"encoding/json"
+	"errors"
 	"fmt"
+	"github.com/Trendyol/go-dcp/models"
+	"github.com/couchbase/gocbcore/v10"
 	"math/rand"
 	"sort"
 	"strings"
@@ -388,6 +391,36 @@ func init() {
 		d.cfg.Dcp.Group.Membership.RebalanceDelay = 150 * time.Millisecond
 		d.execStart(SOp{Kind: "open", Sv: sv})
 		release := make(chan struct{})
+		if a.Kind == "rebalance-during-reopen-retries" {
+			// no Close() here: a membership change closes the stream while the library is retrying the reopen of vBucket 0;
+			// the window (5.5 s) outlasts the retries
+			d.cfg.Dcp.Group.Membership.RebalanceDelay = 5500 * time.Millisecond
+			d.Client.SetOpenErr(0, errors.New("scripted reopen failure"))
+			d.Client.Observer(0).End(models.DcpStreamEnd{VbID: 0}, gocbcore.ErrSocketClosed)
+			time.Sleep(150 * time.Millisecond)
+			go d.Stream.Rebalance()
+			time.Sleep(300 * time.Millisecond)
+			d.Client.SetOpenErr(0, nil)
+			d.Client.TakeOpens()
+			res := c13WinRes{Kind: a.Kind, Result: "not reopened"}
+			deadline := time.Now().Add(9 * time.Second)
+			for time.Now().Before(deadline) {
+				if d.Stream.IsOpen() {
+					res.Result = "reopened"
+					break
+				}
+				time.Sleep(20 * time.Millisecond)
+			}
+			for _, oc := range d.Client.TakeOpens() {
+				if oc.VbID == 0 {
+					res.OpensAfter++
+				}
+			}
+			res.Alive = true
+			b, _ := json.Marshal(res)
+			fmt.Println("RESULT " + string(b))
+			return
+		}
 		switch a.Kind {
 		case "inside-close":
 			d.Hand.SetHold("BeforeStreamStop", true)
@@ -397,6 +430,12 @@ func init() {
 		case "during-delay-timer-armed":
 			go d.Stream.Rebalance()
 			time.Sleep(40 * time.Millisecond)
+		case "during-reopen-retries":
+			// the stream of vBucket 0 ends with a recoverable error while the server refuses to reopen it: the library retries
+			// every second, five times
+			d.Client.SetOpenErr(0, errors.New("scripted reopen failure"))
+			d.Client.Observer(0).End(models.DcpStreamEnd{VbID: 0}, gocbcore.ErrSocketClosed)
+			time.Sleep(150 * time.Millisecond)
 		case "inside-reopen":
 			var once sync.Once
 			arrived := make(chan struct{})
@@ -427,7 +466,10 @@ func init() {
 		}
 		res.Ms = time.Since(start).Milliseconds()
 		_, _, _, opens0 := d.Client.Counts() // what the reopen half that was running has requested is closed again by the teardown
-		time.Sleep(400 * time.Millisecond)   // longer than the rebalance delay: does the armed timer reopen streams after the shutdown?
+		if a.Kind == "during-reopen-retries" {
+			time.Sleep(5500 * time.Millisecond) // the retries give up (and panic) four seconds after the first attempt
+		}
+		time.Sleep(400 * time.Millisecond) // longer than the rebalance delay: does the armed timer reopen streams after the shutdown?
 		var opens1 int
 		_, res.DcpCloses, res.CliCloses, opens1 = d.Client.Counts()
 		res.OpensAfter = opens1 - opens0
@@ -438,34 +480,79 @@ func init() {
 }
 
 func runC13Windows(c *Ctx) {
-	for _, kind := range []string{"inside-close", "during-delay-timer-armed", "inside-reopen"} {
+	type job struct {
+		kind string
+		auto bool
+	}
+	var jobs []job
+	for _, kind := range []string{"inside-close", "during-delay-timer-armed", "inside-reopen", "during-reopen-retries"} {
 		for _, auto := range []bool{true, false} {
-			cr := RunChild("c13win", c13WinArg{Kind: kind, Auto: auto}, 30*time.Second)
-			rep := map[string]interface{}{"close_arrives": kind, "auto_checkpoint": auto}
-			c.Count("window:" + kind)
-			c.Eval(fmt.Sprint("window ", kind, auto), true)
-			var res *c13WinRes
-			for _, l := range cr.Lines {
-				if strings.HasPrefix(l, "RESULT ") {
-					res = &c13WinRes{}
-					_ = json.Unmarshal([]byte(l[7:]), res)
-				}
+			if kind == "during-reopen-retries" && !auto {
+				continue // six seconds each: once
 			}
-			if res == nil {
-				c.Violate("close-inside-rebalance-window", fmt.Sprintf("Close() %s of a rebalance: the process died (exit %d) %s", kind, cr.ExitCode, cr.Fatal), rep)
-				continue
-			}
-			rep["observed"] = res
-			switch {
-			case strings.HasPrefix(res.Result, "died"):
-				c.Violate("close-inside-rebalance-window", fmt.Sprintf("Close() %s of a rebalance: the goroutine of Start() panicked in the teardown: %s", kind, res.Result), rep)
-			case res.Result == "hung":
-				c.Violate("close-inside-rebalance-window", fmt.Sprintf("Close() %s of a rebalance: Start() had not returned after 3 s", kind), rep)
-			case res.OpensAfter > 0:
-				c.Violate("close-inside-rebalance-window", fmt.Sprintf("Close() %s of a rebalance: %d stream requests after the call", kind, res.OpensAfter), rep)
-			case res.DcpCloses != 1 || res.CliCloses != 1:
-				c.Violate("close-inside-rebalance-window", fmt.Sprintf("Close() %s of a rebalance: DcpClose x%d, Close x%d", kind, res.DcpCloses, res.CliCloses), rep)
+			jobs = append(jobs, job{kind, auto})
+		}
+	}
+	out := make([]ChildResult, len(jobs))
+	Parallel(len(jobs), 8, func(i int) {
+		out[i] = RunChild("c13win", c13WinArg{Kind: jobs[i].kind, Auto: jobs[i].auto}, 40*time.Second)
+	})
+	for i, j := range jobs {
+		kind, cr := j.kind, out[i]
+		what := "Close() " + kind + " of a rebalance"
+		class := "close-inside-rebalance-window"
+		if kind == "during-reopen-retries" {
+			what = "Close() while the library is retrying the reopen of a vBucket stream"
+			class = "close-during-reopen-retries"
+		}
+		rep := map[string]interface{}{"close_arrives": kind, "auto_checkpoint": j.auto, "how": "vh child c13win"}
+		c.Count("window:" + kind)
+		c.Eval(fmt.Sprint("window ", kind, j.auto), true)
+		var res *c13WinRes
+		for _, l := range cr.Lines {
+			if strings.HasPrefix(l, "RESULT ") {
+				res = &c13WinRes{}
+				_ = json.Unmarshal([]byte(l[7:]), res)
 			}
 		}
+		if res == nil {
+			c.Violate(class, fmt.Sprintf("%s: the process died (exit %d) %s", what, cr.ExitCode, cr.Fatal), rep)
+			continue
+		}
+		rep["observed"] = res
+		switch {
+		case strings.HasPrefix(res.Result, "died"):
+			c.Violate(class, fmt.Sprintf("%s: the goroutine of Start() panicked in the teardown: %s", what, res.Result), rep)
+		case res.Result == "hung":
+			c.Violate(class, fmt.Sprintf("%s: Start() had not returned after 3 s", what), rep)
+		case res.OpensAfter > 0:
+			c.Violate(class, fmt.Sprintf("%s: %d stream requests after the call", what, res.OpensAfter), rep)
+		case res.DcpCloses != 1 || res.CliCloses != 1:
+			c.Violate(class, fmt.Sprintf("%s: DcpClose x%d, Close x%d", what, res.DcpCloses, res.CliCloses), rep)
+		}
+	}
+}
+
+// runReopenRetriesUnderRebalance (C12): a membership change closes the stream while the library is retrying the reopen of a
+// vBucket stream; the window outlasts the retries. The process must survive and the reopen half must request that vBucket.
+func runReopenRetriesUnderRebalance(c *Ctx) {
+	cr := RunChild("c13win", c13WinArg{Kind: "rebalance-during-reopen-retries", Auto: true}, 40*time.Second)
+	rep := map[string]interface{}{"how": "vh child c13win", "kind": "rebalance-during-reopen-retries"}
+	c.Count("rebalance-during-reopen-retries")
+	c.Eval("rebalance-during-reopen-retries", true)
+	var res *c13WinRes
+	for _, l := range cr.Lines {
+		if strings.HasPrefix(l, "RESULT ") {
+			res = &c13WinRes{}
+			_ = json.Unmarshal([]byte(l[7:]), res)
+		}
+	}
+	switch {
+	case res == nil:
+		c.Violate("reopen-retries-under-rebalance", fmt.Sprintf("a rebalance closed the stream while the reopen of vBucket 0 was being retried: the process died (exit %d) %s", cr.ExitCode, cr.Fatal), rep)
+	case res.Result != "reopened":
+		c.Violate("reopen-retries-under-rebalance", "a rebalance closed the stream while the reopen of vBucket 0 was being retried: the stream was not open again 9 s later", rep)
+	case res.OpensAfter != 1:
+		c.Violate("reopen-retries-under-rebalance", fmt.Sprintf("a rebalance closed the stream while the reopen of vBucket 0 was being retried: vBucket 0 was requested %d times by the reopen", res.OpensAfter), rep)
 	}
 }
